@@ -31,6 +31,7 @@ type verifC03Resp struct {
 	Chunks     []int       `json:"chunks"`
 	Declared   [][2]string `json:"declared_trailers"`
 	Undeclared [][2]string `json:"undeclared_trailers"`
+	SlowMs     int         `json:"slow_ms,omitempty"` // the backend pauses this long in the middle of the response
 }
 
 func (c *verifC03Resp) hasBody() bool {
@@ -132,7 +133,14 @@ func verifStartRawBackend(cases map[string]*verifC03Resp) (addr string, stop fun
 							w.WriteString("\r\n")
 						}
 					}
-					c.Write(w.Bytes())
+					if sc.SlowMs > 0 {
+						b := w.Bytes()
+						c.Write(b[:len(b)/2])
+						time.Sleep(time.Duration(sc.SlowMs) * time.Millisecond)
+						c.Write(b[len(b)/2:])
+					} else {
+						c.Write(w.Bytes())
+					}
 					if closeAfter {
 						return
 					}
@@ -304,6 +312,13 @@ func TestVerifC03(t *testing.T) {
 				c.Method, c.Status, c.Interim, c.BodyLen, c.Framing, c.Chunks = "GET", 200, nil, 1, "chunked", []int{1}
 				c.Declared = [][2]string{{"X-Trailer-A", "corpus-a"}, {"X-Trailer-B", "corpus-b"}}
 				c.Undeclared = nil
+			}
+			if proto == "h1" && i == 3 {
+				// a response that takes longer than any plausible I/O deadline on the way: 11 s pause in mid-body, trailers after it
+				c.Method, c.Status, c.Interim, c.BodyLen, c.Framing, c.Chunks = "GET", 200, nil, 3000, "chunked", []int{1000, 1000, 1000}
+				c.Declared = [][2]string{{"X-Trailer-A", "after-the-pause"}}
+				c.Undeclared = nil
+				c.SlowMs = 11000
 			}
 			cases[c.Case] = c
 			order = append(order, c)
